@@ -176,11 +176,12 @@ def expectation(t):
 # ------------------------------------------------------------------ independent cdb reader
 
 class CdbBad(Exception):
-    """structural damage: a pointer or a length leaves the file, or a read comes up short"""
+    """structural damage: a pointer or a length leaves the file, or a read comes up short.
+    cls is a stable class name of the damage (used in violation keys)."""
 
-
-class CdbUndefined(Exception):
-    """the bytes ask for arithmetic beyond 32 bits; no reading is defined"""
+    def __init__(self, msg, cls="outside-file"):
+        Exception.__init__(self, msg)
+        self.cls = cls
 
 
 def cdb_hash(key):
@@ -197,9 +198,16 @@ class CdbReader:
     def __init__(self, data):
         self.b = data
 
-    def _rd(self, off, n):
+    def _rd(self, off, n, what="outside-file"):
+        # No 32-bit arithmetic is imitated here: an offset or length that does not fit the file is
+        # damage, however large it is.
         if off < 0 or off + n > len(self.b):
-            raise CdbBad("read [%d,%d) outside %d bytes" % (off, off + n, len(self.b)))
+            cls = what
+            if n >= 2 ** 31:
+                cls = "length-over-2G"
+            elif off >= 2 ** 32:
+                cls = "offset-over-4G"
+            raise CdbBad("read [%d,%d) outside %d bytes" % (off, off + n, len(self.b)), cls)
         return self.b[off:off + n]
 
     def _u32(self, off):
@@ -215,8 +223,6 @@ class CdbReader:
         i = (h >> 8) % tlen
         for _ in range(tlen):
             off = tpos + 8 * i
-            if off > 0xffffffff:
-                raise CdbUndefined("table slot offset wraps")
             sh, sp = self._u32(off), self._u32(off + 4)
             if sp == 0:
                 return None
@@ -244,9 +250,7 @@ class CdbReader:
         if r is None:
             return None
         off, dlen = r
-        if dlen >= 2 ** 31:
-            raise CdbUndefined("data length beyond 31 bits")
-        return self._rd(off, dlen)
+        return self._rd(off, dlen, "value-outside-file")
 
     def records(self):
         """sequential scan of the record area (only meaningful for an undamaged file)"""
@@ -258,18 +262,18 @@ class CdbReader:
             out.append((self._rd(p + 8, klen), self._rd(p + 8 + klen, dlen)))
             p += 8 + klen + dlen
         if p != end:
-            raise CdbBad("record area does not end at the first table")
+            raise CdbBad("record area does not end at the first table", "record-area")
         return out
 
 
 def cdb_lookup(data, local):
     """What the bytes of a users/cdb say about `local` (on-disk format of qmail-newu(8):
     '!'+address+NUL -> simple assignment, '!'+loc -> wildcard, '' -> the set of last characters of
-    all wildcard locs).  -> Target | None (not listed); raises CdbBad / CdbUndefined."""
+    all wildcard locs).  -> Target | None (not listed); raises CdbBad."""
     r = CdbReader(data)
     wild = r.get(b"")
     if wild is None:
-        raise CdbBad("no break-character record")
+        raise CdbBad("no break-character record", "no-break-record")
     l = lower(local)
     v = r.get(b"!" + l + b"\0")
     rest = b""
@@ -285,5 +289,5 @@ def cdb_lookup(data, local):
     f = (v + rest + b"\0").split(b"\0")
     # user NUL uid NUL gid NUL home NUL dash NUL ext NUL: six terminated fields
     if len(f) < 7:
-        raise CdbBad("value has fewer than six fields")
+        raise CdbBad("value has fewer than six fields", "short-value")
     return Target(f[0], f[1], f[2], f[3], f[4], f[5], "cdb-bytes")
